@@ -2,8 +2,8 @@
 package checks
 
 import (
-	"math/big"
 	"encoding/json"
+	"math/big"
 	"sort"
 
 	"verifharness/mc"
